@@ -9,6 +9,7 @@ intermediate operations").  `IsRN q r`: `r` maps every rational to a representab
 -/
 import FAVerif.Lemmas.EFT
 import FAVerif.Lemmas.EFTSoft
+import FAVerif.Lemmas.SoftDiv
 import FAVerif.Generated.C10
 
 namespace FAVerif.Props.C10
@@ -211,6 +212,14 @@ theorem soft_ops_correctly_rounded (f : Fmt) (hf : 2 ≤ f.p ∧ 2 ≤ f.ew) (a 
     IsRN (qf f hf.1) (rne (qf f hf.1)) :=
   ⟨add_correct f ⟨hf.1, hf.2⟩ a b s t m n e e' ha hb, sub_correct f ⟨hf.1, hf.2⟩ a b s t m n e e' ha hb,
    mul_correct f ⟨hf.1, hf.2⟩ a b s t m n e e' ha hb, isRN_rne _⟩
+
+/-- Division of the softfloat is correctly rounded as well (sticky-bit path): finite operands,
+non-zero divisor, finite result ⇒ value = rne (x / y). -/
+theorem soft_div_correctly_rounded (f : Fmt) (hf : 2 ≤ f.p ∧ 2 ≤ f.ew) (a b : Nat) (s t : Bool) (m n : Nat) (e e' : Int)
+    (ha : decode f a = .fin s m e) (hb : decode f b = .fin t n e') (hn : n ≠ 0)
+    (hfin : isFiniteBits f (FAVerif.FP.div f a b) = true) :
+    toQ f (FAVerif.FP.div f a b) = some (rne (qf f hf.1) (valQ s m e / valQ t n e')) :=
+  div_correct f ⟨hf.1, hf.2⟩ a b s t m n e e' ha hb hn hfin
 
 /-- Every regenerated program is well formed (arguments refer to earlier nodes, inputs in range). -/
 theorem generated_wf : ∀ p ∈ FAVerif.Gen.C10.all, p.2.wf = true := by decide +kernel
